@@ -1,10 +1,12 @@
 #!/bin/bash
-# tools/run_all.sh [tier] : run every claimed check in sequence, print rc and wall per property
+# tools/run_all.sh [tier] [ids...] : run claimed checks in sequence, print rc and wall per property
 cd "$(dirname "$0")/.."
-TIER=${1:-quick}
-for pid in $(python3 -c "import json; print(' '.join(c['property_id'] for c in json.load(open('MANIFEST.json'))['checks']))"); do
+TIER=${1:-quick}; shift
+IDS="$@"
+[ -z "$IDS" ] && IDS=$(python3 -c "import json; print(' '.join(c['property_id'] for c in json.load(open('MANIFEST.json'))['checks']))")
+for pid in $IDS; do
   t0=$(date +%s)
-  out=$(./check $pid --tier $TIER 2>&1); rc=$?
+  out=$(timeout ${RUNALL_TIMEOUT:-3000} ./check $pid --tier $TIER 2>&1); rc=$?
   t1=$(date +%s)
   echo "$pid rc=$rc wall=$((t1-t0))s $(echo "$out" | grep -m1 'tier=' ) $(echo "$out" | grep -c 'KNOWN-FINDING') known"
   [ $rc -ne 0 ] && echo "$out" | tail -5
